@@ -178,9 +178,11 @@ OperandM(k) ==
         mode |-> IF l.z THEN "closed" ELSE IF l.pcs = <<>> THEN "moved" ELSE "open",
         pen  |-> IF l.z \/ l.pcs = <<>> THEN l.s ELSE EndOf(LastOf(l.pcs))]
 
-\* Append: q's sub-paths follow p's; an empty operand changes nothing; an empty receiver becomes q
-AppendM(m, q) ==
-  IF EmptyM(q.subs) THEN m
+\* Append: q's sub-paths follow p's; an empty operand changes nothing; an empty receiver becomes q.
+\* Defect model "bApp": an "empty" receiver (one that only holds a pending MoveTo) is replaced by a fresh path even when
+\* nothing is appended, so the pending MoveTo is forgotten.
+AppendM(m, q, V) ==
+  IF EmptyM(q.subs) THEN (IF "bApp" \in V /\ EmptyM(m.subs) THEN InitSt ELSE m)
   ELSE IF EmptyM(m.subs) THEN q
   ELSE [m EXCEPT !.subs = m.subs \o q.subs, !.mode = q.mode, !.pen = q.pen]
 \* Join: "like executing the commands in q to p in sequence"; falls back to Append if p ends in Close or q does
@@ -188,7 +190,7 @@ AppendM(m, q) ==
 JoinM(m, q, V) ==
   IF EmptyM(q.subs) THEN m
   ELSE IF EmptyM(m.subs) THEN q
-  ELSE IF m.mode = "closed" \/ q.subs[1].s # m.pen THEN AppendM(m, q)
+  ELSE IF m.mode = "closed" \/ q.subs[1].s # m.pen THEN AppendM(m, q, V)
   ELSE LET f   == q.subs[1]
            RECURSIVE Add(_, _)
            Add(mm, i) == IF i > Len(f.pcs) THEN mm ELSE Add(AddPiece(mm, f.pcs[i]), i + 1)
@@ -211,7 +213,7 @@ Apply(m, c, V) ==
     [] c.op = "ArcTo"  -> ArcToM(m, c.a)
     [] c.op = "Arc"    -> ArcM(m, c.a)
     [] c.op = "Close"  -> CloseM(m, V)
-    [] c.op = "Append" -> AppendM(m, OperandM(c.a[1]))
+    [] c.op = "Append" -> AppendM(m, OperandM(c.a[1]), V)
     [] c.op = "Join"   -> JoinM(m, OperandM(c.a[1]), V)
     [] OTHER           -> m          \* shape constructors are judged by ShapeVerdict, not through the machine
 RECURSIVE MeaningFrom(_, _, _, _)
@@ -339,15 +341,21 @@ StreamSubs(sm) == SubsOf(sm, 1, <<>>, <<0, 0>>, FALSE)
 
 \* geometry verdict: "ok", or the name of the known deviation model that explains the stream, or "other"
 Ks == SUBSET (1..3)
+DefectModels == <<{"b32"}, {"bApp"}, {"b32", "bApp"}>>
+ModelName(V) == IF V = {"b32"} THEN "moveto-close-forgets-moveto" ELSE IF V = {"bApp"} THEN "append-forgets-moveto"
+                ELSE "moveto-close-forgets-moveto+append-forgets-moveto"
 GeomVerdict(h, sm) ==
   LET obs == NF(StreamSubs(sm))
       m0  == Meaning(h, {})
-      m32 == Meaning(h, {"b32"}) IN
+      RECURSIVE Try(_)
+      Try(k) == IF k > Len(DefectModels) THEN "other"
+                ELSE LET mk == Meaning(h, DefectModels[k]) IN
+                     IF obs = NF(mk.subs) THEN ModelName(DefectModels[k])
+                     ELSE IF \E K \in Ks : K # {} /\ obs = NFK(mk.subs, K) THEN ModelName(DefectModels[k]) \o "+reversal-merged"
+                     ELSE Try(k + 1) IN
   IF obs = NF(m0.subs) THEN "ok"
   ELSE IF \E K \in Ks : K # {} /\ obs = NFK(m0.subs, K) THEN "reversal-merged"
-  ELSE IF obs = NF(m32.subs) THEN "moveto-close-forgets-moveto"
-  ELSE IF \E K \in Ks : K # {} /\ obs = NFK(m32.subs, K) THEN "moveto-close-forgets-moveto+reversal-merged"
-  ELSE "other"
+  ELSE Try(1)
 
 \* ---- shape constructors (shapes.go) ---------------------------------------------------------------
 \* A shape call is the history <<Call("Shape:<Name>", args)>>; lengths are lattice integers (the driver chooses the
@@ -452,5 +460,6 @@ StreamOf(subs, j, acc) == IF j > Len(subs) THEN acc
                           ELSE StreamOf(subs, j + 1, acc \o StreamOfSub(subs[j], 1, subs[j].s, <<<<1, subs[j].s[1], subs[j].s[2]>>>>))
 SelfJudged == LET sm == StreamOf(NF(st.subs), 1, <<>>) IN WFViolations(sm) = {} /\ GeomVerdict(hist, sm) = "ok"
 \* the defect models differ from the documented meaning only where their trigger occurs
-B32OnlyAfterMoveClose == (Meaning(hist, {"b32"}) # st) => \E i \in 1..Len(hist) : hist[i].op \in {"Close", "Join"}
+B32OnlyAfterMoveClose == /\ (Meaning(hist, {"b32"}) # st) => \E i \in 1..Len(hist) : hist[i].op \in {"Close", "Join"}
+                         /\ (Meaning(hist, {"bApp"}) # st) => \E i \in 1..Len(hist) : hist[i].op \in {"Append", "Join"}
 =============================================================================
